@@ -136,6 +136,17 @@ static int cmd_deploy(const std::string& shared, const std::string& user) {
     std::string t;
     while (std::getline(ss, t, ',')) tasks.push_back(t);
   }
+  // VERIF_BETWEEN=<shell command>: the tasks run twice in this process, the command in between (the sources are edited
+  // while the input method keeps running, then redeployed: whatever a deployment caches in the process meets new sources)
+  const char* between = getenv("VERIF_BETWEEN");
+  for (int round = 0; round < (between ? 2 : 1); ++round) {
+  if (round == 1) {
+    fflush(stdout);
+    int brc = system(between);
+    printf("between %d\n", brc);
+    g_now += 4;
+    ok = true;
+  }
   for (const std::string& ts : tasks) {
     const char* t = ts.c_str();
     bool r;
@@ -158,6 +169,7 @@ static int cmd_deploy(const std::string& shared, const std::string& user) {
       ok = false;
       break;
     }
+  }
   }
 #if HAVE_HOOKS
   printf("cpcount %ld\n", g_cp);
